@@ -718,8 +718,8 @@ class DotProductAttentionPlugin(PrimitiveLeafPlugin):
                 q: Any,
                 k: Any,
                 v: Any,
-                mask: Any | None = None,
                 bias: Any | None = None,
+                mask: Any | None = None,
                 **kwargs: Any,
             ) -> Any:
                 operands = [q, k, v]
